@@ -34,7 +34,7 @@ var hookCalls = []string{"send", "reopen", "rmpipenodes", "rmnode-unused", "rmpi
 	"rmpipenodes-dup", "rmpipe-dup", "regpipe-dup-overwrite",
 	// closing wrapped nodes (NodeUnwrapper), also one whose Unwrap returns nil
 	"rmnode-wrapper", "rmnode-wrapper-nil", "rmpipenodes-wrapper-nil"}
-var gatedCalls = []string{"send-expiring", "send-flush", "rmpipenodes", "rmpipe+rmnode", "reopen", "reopen-expired", "regnode-replace"}
+var gatedCalls = []string{"send-expiring", "send-flush", "rmpipenodes", "rmpipe+rmnode", "reopen", "reopen-expired", "regnode-replace", "send-expiring-gateable"}
 
 func scenarios(tier string) []scenario {
 	var out []scenario
@@ -162,6 +162,15 @@ func body(sc scenario) func() string {
 			_, err := b.Send(ctx, "t1", "payload")
 			ret = fmt.Sprint(err != nil)
 		case "send-expiring":
+			clk.Advance(2 * time.Second)
+			seq++
+			_, err := b.Send(ctx, "t1", &hn.GP{ID: "late", Seq: seq, Rec: rec})
+			ret = fmt.Sprint(err != nil)
+		case "send-expiring-gateable":
+			// the expired group's composition yields a payload that is itself Gateable, of the filter's own
+			// event type: it must be refused, not sent back into the filter that is holding its lock
+			rec.Type = "t1"
+			rec.GateableAt = rec.N() + 1
 			clk.Advance(2 * time.Second)
 			seq++
 			_, err := b.Send(ctx, "t1", &hn.GP{ID: "late", Seq: seq, Rec: rec})
